@@ -1,5 +1,6 @@
 import LexVerif.Spec.StdFloat
 import LexVerif.Props.C05
+import LexVerif.Props.C01
 import LexVerif.Proof.RoundNEStep
 import LexVerif.Proof.BellLossy
 /-!
@@ -139,6 +140,59 @@ theorem lossy_bellerophon_neighbour (F : FTy) (hF : F = FTy.f64 ∨ F = FTy.f32)
   rcases hF with h' | h' <;> subst h'
   · exact bellerophon_lossy_neighbour layout_f64 (by decide) hc n hw hmw num den hd htv
   · exact bellerophon_lossy_neighbour layout_f32 (by decide) hc n hw hmw num den hd htv
+
+/-! ## decimal, Eisel–Lemire (non-`compact` builds) -/
+
+/-- **`lossy_lemire_agrees`**: lossy and non-lossy `compute_float` run the same code unless the non-lossy one falls
+back (`lo` all ones outside `[−27, 55]`); so whenever the non-lossy answer is valid, the lossy answer is the same
+float — and by `lemire_sound_proved` it is `roundNE (w·10^q)`: lossy decimal parsing of an untruncated mantissa is
+exact except on the fall-back inputs. -/
+theorem lossy_lemire_agrees (F : FTy) (hF : C01.IsLemireFloat F) (q : Int) (hq : C01.IsI64 q) (w : Nat)
+    (hw : w < 2 ^ 64) {fp : ExtendedFloat80} (h : Lemire.computeFloat F q w false = .ok fp) (hv : 0 ≤ fp.exp) :
+    Lemire.computeFloat F q w true = .ok fp ∧
+      extendedToFloat F fp = roundNE F.fmt (powFrac 10 q w).1 (powFrac 10 q w).2 := by
+  refine ⟨?_, C01.cfSound_all F hF q w hw fp h hv⟩
+  obtain ⟨p, eb, lay⟩ : ∃ p eb, Layout F p eb := by
+    rcases hF with h' | h' <;> subst h'
+    · exact ⟨_, _, layout_f64⟩
+    · exact ⟨_, _, layout_f32⟩
+  unfold Lemire.computeFloat at h ⊢
+  split at h
+  · rename_i h1; rw [if_pos h1]; exact h
+  · rename_i h1
+    rw [if_neg h1]
+    split at h
+    · rename_i h2; rw [if_pos h2]; exact h
+    · rename_i h2
+      rw [if_neg h2]
+      simp only [] at h ⊢
+      cases hc : Lemire.computeProductApprox q (shl64m w (clz64 w)) (F.ms + Lemire.litPrecisionExtra) with
+      | none => rw [hc] at h; exact absurd h (by simp)
+      | some r =>
+        obtain ⟨lo, hi⟩ := r
+        rw [hc] at h
+        simp only [] at h ⊢
+        have hrange := LexVerif.Proof.Lemire.cpa_some hq.1 hq.2 hc
+        split at h
+        · exfalso
+          injection h with h; subst h
+          have hpw := LexVerif.Proof.Lemire.power_eq q (by omega) (by omega)
+          have := LexVerif.Proof.Lemire.computeErrorScaled_neg lay q hi (clz64 w) (by rw [hpw]; omega)
+          omega
+        · simp only [Bool.not_true, Bool.false_and, Bool.false_eq_true, if_false]
+          exact h
+
+/-- **`lossy_lemire_neighbour`** (statement; **not proved**): lossy `compute_float` always answers with a valid float,
+which is `roundNE (w·10^q)` or the pattern just below it. Open only on the fall-back inputs (elsewhere
+`lossy_lemire_agrees`). Route: there `cfRound` computes `roundNE` of the *computed* product `z = hi·2^64 + lo`
+(`cfRound_of_quot` / `cfRound_sub` with `N := z·Dz`: no tie, `lo` is all ones), the exact product is within
+`[z, z + 2^64 + 1)`, a relative error below `2^−61`, and `Proof.RoundNEStep.roundNE_step` turns that into at most one
+pattern. -/
+def lossy_lemire_neighbour : Prop :=
+  ∀ F, C01.IsLemireFloat F → ∀ (q : Int) (w : Nat), C01.IsI64 q → w < 2 ^ 64 →
+    ∃ fp, Lemire.computeFloat F q w true = .ok fp ∧ 0 ≤ fp.exp ∧
+      (extendedToFloat F fp = roundNE F.fmt (powFrac 10 q w).1 (powFrac 10 q w).2 ∨
+        extendedToFloat F fp + 1 = roundNE F.fmt (powFrac 10 q w).1 (powFrac 10 q w).2)
 
 /-- non-vacuity (decimal, `compact`): `2^53 + 1` is a tie: non-lossy declines, lossy rounds the estimate -/
 example : Bellerophon.bellerophon FTy.f64 (Gen.Bellerophon.CompactRadix.powers 10)
